@@ -250,4 +250,8 @@ theorem appendTmp_eq (d : APath) (n : Comp) (hn : n ≠ dotdot) :
   rw [fileName_append_singleton d n hn]
   simp
 
+/-- a component without '.' is not "..". -/
+theorem ne_dotdot_of_no_dot (g : Comp) (h : '.' ∉ g) : g ≠ dotdot :=
+  fun e => h (by rw [e]; decide)
+
 end Cascette.Proofs.Path
